@@ -119,6 +119,14 @@ def eval_expr(expr, ty, env):
     if m:
         v = eval_expr(m.group(2), "u64", env)
         return v * (1 if m.group(1) == "millis" else 1000)
+    # `NAME.len()` of a byte-string constant, `size_of::<T>()` of a primitive
+    def _len(m):
+        v = env.get(m.group(1))
+        if not isinstance(v, list):
+            raise Fail("%s.len(): %s is not a byte-string constant" % (m.group(1), m.group(1)))
+        return str(len(v))
+    expr = re.sub(r"\b([A-Z][A-Z0-9_]*)\.len\(\)", _len, expr)
+    expr = re.sub(r"\b(?:(?:std|core)::)?(?:mem::)?size_of::<(u8|u16|u32|u64|usize|i32|i64)>\(\)", lambda m: str(BITS[m.group(1)] // 8), expr)
     # strip casts and integer suffixes, translate `!X`
     e = re.sub(r"\bas\s+(u8|u16|u32|u64|usize|i32|i64)\b", "", expr)
     e = re.sub(r"\b(0x[0-9A-Fa-f_]+|[0-9][0-9_]*)(u8|u16|u32|u64|usize|i32|i64)\b", r"\1", e)
@@ -168,20 +176,41 @@ def eval_expr(expr, ty, env):
     return v
 
 
+def previous_values():
+    """name -> value of the last generated file (the fallback for a constant that cannot be located)"""
+    prev = {}
+    try:
+        for l in open(OUT):
+            m = re.match(r"def (\w+) : Nat := (\d+)", l)
+            if m:
+                prev[m.group(1)] = int(m.group(2))
+            m = re.match(r"def (\w+) : List UInt8 := \[(.*)\]", l)
+            if m:
+                prev[m.group(1)] = [int(x) for x in m.group(2).split(",") if x.strip()]
+    except OSError:
+        pass
+    return prev
+
+
+def tokens(name):
+    return set(t for t in name.split("_") if t)
+
+
 def main():
     lines = []
     digest = hashlib.sha256()
-    all_env = {}
-    # constants.rs first: the others `use crate::constants::*`
     base_env = {}
     out_items = []
+    found_by_file = {}
+    problems = {}          # wanted name -> why its own definition could not be evaluated
     for f in FILES:
         path = os.path.join(REPO, f)
         try:
             src = open(path).read()
         except OSError as ex:
             print("gen_constants: cannot read %s: %s" % (path, ex), file=sys.stderr)
-            return 2
+            found_by_file[f] = {}
+            continue
         digest.update(src.encode())
         # drop line comments
         src_nc = re.sub(r"//[^\n]*", "", src)
@@ -191,24 +220,50 @@ def main():
             name, ty, expr = m.group(1), m.group(2), m.group(3)
             if "{" in expr or "[" in expr.replace("[0;", "[0;") and "table" in expr:
                 continue
-            if name not in WANT.get(f, []) and not re.fullmatch(r"[A-Za-z0-9_ ()*+\-<|&!x]+|b\".*\"", expr.strip()):
-                continue
             try:
                 v = eval_expr(expr, ty, env)
             except Fail as ex:
-                if name in WANT.get(f, []):
-                    print("gen_constants: %s: %s: %s" % (f, name, ex), file=sys.stderr)
-                    return 2
+                problems[(f, name)] = str(ex)
+                continue
+            except Exception as ex:      # an expression of a kind this reader was never meant for
+                problems[(f, name)] = "%s: %s" % (type(ex).__name__, ex)
                 continue
             env[name] = v
             found[name] = v
         if f == "src/constants.rs":
             base_env = dict(env)
+        found_by_file[f] = found
+    prev = previous_values()
+    wanted_everywhere = set(n for ns in WANT.values() for n in ns)
+    notes, missing = [], {}
+    for f in FILES:
         for name in WANT.get(f, []):
-            if name not in found:
-                print("gen_constants: %s: constant %s not found" % (f, name), file=sys.stderr)
+            lean = LEAN_PREFIX.get(f, "") + name
+            if name in found_by_file.get(f, {}):
+                out_items.append((f, lean, found_by_file[f][name]))
+                continue
+            # moved to another file?
+            elsewhere = [g for g in FILES if g != f and name in found_by_file.get(g, {}) and name not in WANT.get(g, [])]
+            if len(elsewhere) == 1:
+                notes.append("%s: now defined in %s (was %s)" % (name, elsewhere[0], f))
+                out_items.append((f, lean, found_by_file[elsewhere[0]][name]))
+                continue
+            # renamed?  exactly one constant of the same file that this translator does not already know, with the
+            # previous value and a name sharing a word with the old one
+            why = problems.get((f, name), "not found")
+            if (f, name) not in problems and lean in prev:
+                cands = [n for n, v in found_by_file.get(f, {}).items()
+                         if n not in wanted_everywhere and v == prev[lean] and (tokens(n) & tokens(name)) - {"MAX", "MIN", "SIZE", "OFFSET"}]
+                if len(cands) == 1:
+                    notes.append("%s: now called %s in %s (same value %s)" % (name, cands[0], f, prev[lean] if not isinstance(prev[lean], list) else "bytes"))
+                    out_items.append((f, lean, prev[lean]))
+                    continue
+            if lean in prev:
+                missing[lean] = "%s: %s: %s; the model keeps the last translated value" % (f, name, why)
+                out_items.append((f, lean, prev[lean]))
+            else:
+                print("gen_constants: %s: constant %s: %s (and no earlier value to fall back on)" % (f, name, why), file=sys.stderr)
                 return 2
-            out_items.append((f, LEAN_PREFIX.get(f, "") + name, found[name]))
 
     lines.append("/-! GENERATED by tools/gen_constants.py from /repo's current source — do not edit.")
     lines.append("Every model takes its numbers from here. -/")
@@ -235,8 +290,21 @@ def main():
     if old != text:
         with open(OUT, "w") as fh:
             fh.write(text)
+    import json
+    side = os.path.join(os.path.dirname(OUT), "constants_status.json")
+    status = json.dumps({"missing": missing, "notes": notes}, indent=1, sort_keys=True) + "\n"
+    try:
+        same = open(side).read() == status
+    except OSError:
+        same = False
+    if not same:
+        open(side, "w").write(status)
     print("gen_constants: %d constants, source sha256 %s%s" % (
         len(out_items), digest.hexdigest()[:16], "" if old == text else " (file updated)"))
+    for n in notes:
+        print("gen_constants: note: " + n)
+    for k, v in missing.items():
+        print("gen_constants: MISSING %s — %s" % (k, v))
     return 0
 
 
